@@ -802,11 +802,19 @@ def oracle_cluster(ctx, V, where, call, T, hide, prefix="", extra=None):
               None if got_u is None else got_u[:8], exp_u[:8])
 
 
+def _np_int(ctx, nreq, prob=0.4):
+    """an integer count often arrives as a NumPy integer (np.arange, array shapes, argmax...)"""
+    if not isinstance(nreq, str) and ctx.rng.random() < prob:
+        ctx.count("cmif_nSv_numpy_integer")
+        return ctx.rng.choice([np.int64, np.int32, np.intp])(nreq)
+    return nreq
+
+
 def oracle_cmif(ctx, V, where, call, S, freq, nreq, prefix="", extra=None):
     snap = _snap(S, freq)
     rd, exc = call()
     ctx.oracle_cases += 1
-    inp = {"S_val": S.tolist(), "freq": freq.tolist(), "nSv": nreq, "where": where}
+    inp = {"S_val": S.tolist(), "freq": freq.tolist(), "nSv": nreq if isinstance(nreq, str) else int(nreq), "nSv_type": type(nreq).__name__, "where": where}
     inp.update(extra or {})
     n = S.shape[1]
     k_req = n if nreq == "all" else int(nreq)
@@ -901,7 +909,7 @@ def oracle(ctx, scale):
         S, freq = gen_S(ctx)
         n = S.shape[1]
         # admissible as documented: "all", or an integer number of curves below the number of singular values
-        nreq = rng.choice(["all", "all"] + list(range(0, n)))
+        nreq = _np_int(ctx, rng.choice(["all", "all"] + list(range(0, n))))
         lim = gen_limits(ctx)
         axmode = rng.choice([None] + AXMODES)
         oracle_cmif(ctx, V, "plot.CMIF_plot", lambda: _call(plot.CMIF_plot, S, freq, freqlim=lim, nSv=nreq, axmode=axmode), S, freq, nreq,
@@ -932,7 +940,7 @@ def oracle(ctx, scale):
         S, freq = gen_S(ctx)
         cls = rng.choice(fdd_cls)
         c = _mk_fdd(cls, S, freq)
-        nreq = rng.choice(["all", "all"] + list(range(0, S.shape[1])))
+        nreq = _np_int(ctx, rng.choice(["all"] + list(range(0, S.shape[1]))), prob=0.7)
         oracle_cmif(ctx, V, f"{cls.__name__}.plot_CMIF", lambda: _call(c.plot_CMIF, freqlim=lim, nSv=nreq), S, freq, nreq, prefix="fdd-")
         if prev is not None:
             pa, pb, pc, pT, pex, pS, pfreq = prev
@@ -988,6 +996,8 @@ def replay(rec):
         S = np.array(inp["S_val"], float)
         freq = np.array(inp["freq"], float)
         nreq = inp["nSv"]
+        if inp.get("nSv_type", "int") not in ("int", "str"):
+            nreq = getattr(np, inp["nSv_type"])(nreq)
         if where.startswith("plot."):
             oracle_cmif(ctx, V, where, lambda: _call(plot.CMIF_plot, S, freq, nSv=nreq, axmode=inp.get("axmode")), S, freq, nreq)
         else:
